@@ -56,6 +56,9 @@ impl NdarrayValue {
             (NdarrayValue::U64(arr), Value::ScalarU64(v)) => {
                 arr[IxDyn(indices)] = v;
             }
+            (NdarrayValue::String(arr), Value::ScalarString(v)) => {
+                arr[IxDyn(indices)] = v;
+            }
             (NdarrayValue::F64(arr), Value::F64(v)) => {
                 // For vector values, we need to handle the extra dimensions
                 if indices.len() == 2 {
@@ -111,6 +114,18 @@ impl NdarrayValue {
                     let mut view = arr.slice_mut(ndarray::s![indices[0], indices[1], ..]);
                     for (i, val) in v.iter().enumerate() {
                         view[i] = *val;
+                    }
+                } else {
+                    return Err(anyhow::anyhow!(
+                        "Vector assignment with complex indices not implemented"
+                    ));
+                }
+            }
+            (NdarrayValue::String(arr), Value::Strings(v)) => {
+                if indices.len() == 2 {
+                    let mut view = arr.slice_mut(ndarray::s![indices[0], indices[1], ..]);
+                    for (i, val) in v.into_iter().enumerate() {
+                        view[i] = val;
                     }
                 } else {
                     return Err(anyhow::anyhow!(
